@@ -60,9 +60,23 @@ def rangesFor (d : XDev) (n : Nat) : List (List Q) :=
                         | some (some r) => [r.toList]
                         | _ => [])
 
-/-- The per-divider acceptance test. -/
-@[inline] def ok (d : XDev) (vco : Q) (o : Out) (dv : Q) : Bool :=
-  if d.usp then isclose (vco.div dv) o else within (vco.div dv) o
+/-- The per-divider acceptance test (`isclose (vco/d) o` for USPMMCM, `within (vco/d) o` otherwise; the
+    thresholds that do not depend on the divider are computed once per output — see `ok_eq`). -/
+def ok (d : XDev) (vco : Q) (o : Out) : Q → Bool :=
+  if d.usp then
+    let t := o.margin.mul o.freq
+    fun dv =>
+      let clk := vco.div dv
+      let df := clk.absDiff o.freq
+      df.le t || df.le (o.margin.mul clk)
+  else
+    let t := o.freq.mul o.margin
+    fun dv => ((vco.div dv).absDiff o.freq).le t
+
+theorem ok_eq (d : XDev) (vco : Q) (o : Out) (dv : Q) :
+    d.ok vco o dv = (if d.usp then isclose (vco.div dv) o else within (vco.div dv) o) := by
+  unfold ok isclose within
+  cases d.usp <;> rfl
 
 end XDev
 
@@ -83,7 +97,8 @@ def scanPlain (ok : Q → Bool) (acc : Option Q) (r : List Q) : Option Q :=
 
 /-- The divider chosen for output `n` at this VCO frequency, if any. -/
 def xOut (d : XDev) (vco : Q) (n : Nat) (o : Out) : Option Q :=
-  (d.rangesFor n).foldl (if d.usp then scanPlain (d.ok vco o) else scanQuirk (d.ok vco o)) none
+  let ok := d.ok vco o
+  (d.rangesFor n).foldl (if d.usp then scanPlain ok else scanQuirk ok) none
 
 /-- Dividers for outputs `n, n+1, …` (`none` as soon as one output has no divider). -/
 def xOuts (d : XDev) (vco : Q) : Nat → List Out → Option (List Q)
@@ -119,15 +134,15 @@ deriving Repr, DecidableEq
 /-- Numeric parameters placed on the instance, as (name, value) pairs: multiplier, input divider and per output
     divider + phase.  PLL: `CLKFBOUT_MULT`, `DIVCLK_DIVIDE`, `CLKOUTn_DIVIDE`, `CLKOUTn_PHASE`;
     MMCM: `CLKFBOUT_MULT_F`, `CLKOUT0_DIVIDE_F`; S6DCM: `CLKFX_MULTIPLY`, `CLKFX_DIVIDE = clkout0_divide*divclk`. -/
-def xParams (p : XPrim) (r : XReq) (c : XCfg) : List (String × Q) :=
+def xParams (p : XPrim) (r : XReq) (c : XCfg) : List (String × SQ) :=
   match p with
   | .s6dcm =>
-    [("CLKFX_MULTIPLY", c.mult), ("CLKFX_DIVIDE", ((c.ds.headD Q.zero).mulNat c.divclk))]
+    [("CLKFX_MULTIPLY", c.mult.toSQ), ("CLKFX_DIVIDE", ((c.ds.headD Q.zero).mulNat c.divclk).toSQ)]
   | _ =>
     let multName := if p = .mmcm then "CLKFBOUT_MULT_F" else "CLKFBOUT_MULT"
     let outs := (c.ds.zip r.outs).zipIdx.flatMap fun ((dv, o), n) =>
-      [((if p = .mmcm ∧ n = 0 then s!"CLKOUT{n}_DIVIDE_F" else s!"CLKOUT{n}_DIVIDE"), dv),
+      [((if p = .mmcm ∧ n = 0 then s!"CLKOUT{n}_DIVIDE_F" else s!"CLKOUT{n}_DIVIDE"), dv.toSQ),
        (s!"CLKOUT{n}_PHASE", o.phase)]
-    [(multName, c.mult), ("DIVCLK_DIVIDE", Q.ofNat c.divclk)] ++ outs
+    [(multName, c.mult.toSQ), ("DIVCLK_DIVIDE", (Q.ofNat c.divclk).toSQ)] ++ outs
 
 end Litex.Clock
